@@ -5,6 +5,7 @@ import (
 	"go/ast"
 	"go/constant"
 	"go/token"
+	"go/types"
 	"sort"
 	"strings"
 
@@ -14,7 +15,7 @@ import (
 func init() {
 	register(&propDef{
 		id: "C27", run: runC27, minOblig: 150,
-		explanation: "Decides RFC-shape necessary conditions of OpenSSH interoperability that Go-to-Go tests cannot see because both sides share the code. The facts about values are decided by SYMBOLIC PATH EXECUTION of the SSA (c27_sym.go): the root function and the helpers of its package it calls are interpreted in place over opaque terms, concrete memory cells and hash objects, every undecided branch is explored on both sides, so the verdict does not depend on helper factoring, names of locals/parameters/receivers, statement order or loop shape. (exchange hash) for each of the five key-exchange families and both roles, on every path that returns a kexResult: result.H is the digest of a hash whose canonical input stream is string(V_C), string(V_S), string(I_C), string(I_S) (the four fields of the magics argument), string(K_S), [min, n, max, p, g for group exchange], e, f, K with the RFC encodings (the hash input is compared as a byte stream: marshalInt/marshalString into a buffer of exactly intLength / 4+len bytes followed by Write, a big-endian uint32 length followed by the bytes, one Write of a concatenation or several Writes of its parts all count as the same input, whichever helper does it), every value is the received field of the peer's message or the very term that was put into the field of the message sent, K is the mpint (ML-KEM hybrid: string) encoding of a secret whose term contains the peer's ephemeral value, result.K is that same encoded K, result.Hash is the hash function the exchange hash was made with, decoded peer messages are never written to; (host key signature) on every such server path the reply's Signature field carries Marshal(priv.SignWithAlgorithm(rand, H, underlyingAlgo(algo))) with H that digest, priv and algo the arguments of Server (signAndMarshal is interpreted in place like any helper), and signAndMarshal by itself signs the given data with underlyingAlgo(algo) and returns the marshalled signature; (key derivation) generateKeyMaterial, interpreted for two digest sizes and ten output lengths each, leaves in out exactly the first len(out) bytes of K1 || K2 || ... with K1 = HASH(K || H || tag || session_id) and Kn = HASH(K || H || K1 || ... || K(n-1)), HASH = r.Hash; enterKeyExchange, on every path, hands prepareKeyChange a kexResult whose SessionID is the stored t.sessionID, or H of this exchange exactly when the path established that t.sessionID was nil/empty, and leaves t.sessionID unchanged resp. set to that H; (direction tags) clientKeys = A,C,E and serverKeys = B,D,F for (ivTag, keyTag, macKeyTag), read from the initialiser's SSA by field name; newPacketCipher, on every path reaching the constructor cipherModes[algs.Cipher].create, passes (key, iv, macKey) buffers filled by generateKeyMaterial with d.keyTag / d.ivTag / d.macKeyTag from the kex result passed in and sized cipherModes[..].keySize / .ivSize / macModes[algs.MAC].keySize, and no MAC key exactly when aeadCiphers[algs.Cipher]; newTransport returns a transport with reader.dir=serverKeys/writer.dir=clientKeys for a client and the opposite for a server; (tables) every advertised kex/cipher/MAC name has a table entry, cipherModes key/IV sizes and macModes key sizes, EtM flags, hash functions and truncation equal the RFC 4253/4344/5647/6668 and OpenSSH PROTOCOL values, kexAlgoMap binds each name to the implementation, hash and curve/group the name prescribes, ecHash maps curve sizes to SHA-256/384/512 (these table rules read the init functions' SSA and remain tied to constant-keyed map assignments of composite literals). NOT decided: actual interoperability and all numeric content (there is an OpenSSH client in the sandbox, but running it is not static analysis); the bodies of the encoding atoms themselves (marshalInt, marshalString, intLength, Marshal, Unmarshal: C24); writeString, writeInt and handshakeMagics.write ARE interpreted (a big-endian length written byte by byte, with binary.BigEndian.PutUint32/AppendUint32 or binary.Write is recognised as the same four bytes).",
+		explanation: "Decides RFC-shape necessary conditions of OpenSSH interoperability that Go-to-Go tests cannot see because both sides share the code. The facts about values are decided by SYMBOLIC PATH EXECUTION of the SSA (c27_sym.go): the root function and the helpers of its package it calls are interpreted in place over opaque terms, concrete memory cells and hash objects, every undecided branch is explored on both sides, so the verdict does not depend on helper factoring, names of locals/parameters/receivers, statement order or loop shape. (exchange hash) for each of the five key-exchange families and both roles, on every path that returns a kexResult: result.H is the digest of a hash whose canonical input stream is string(V_C), string(V_S), string(I_C), string(I_S) (the four fields of the magics argument), string(K_S), [min, n, max, p, g for group exchange], e, f, K with the RFC encodings (the hash input is compared as a byte stream: marshalInt/marshalString into a buffer of exactly intLength / 4+len bytes followed by Write, a big-endian uint32 length followed by the bytes, one Write of a concatenation or several Writes of its parts all count as the same input, whichever helper does it), every value is the received field of the peer's message or the very term that was put into the field of the message sent, K is the mpint (ML-KEM hybrid: string) encoding of a secret whose term contains the peer's ephemeral value, result.K is that same encoded K, result.Hash is the hash function the exchange hash was made with, decoded peer messages are never written to; (host key signature) on every such server path the reply's Signature field carries Marshal(priv.SignWithAlgorithm(rand, H, underlyingAlgo(algo))) with H that digest, priv and algo the arguments of Server (signAndMarshal is interpreted in place like any helper), and signAndMarshal by itself signs the given data with underlyingAlgo(algo) and returns the marshalled signature; (key derivation) generateKeyMaterial, interpreted for two digest sizes and ten output lengths each, leaves in out exactly the first len(out) bytes of K1 || K2 || ... with K1 = HASH(K || H || tag || session_id) and Kn = HASH(K || H || K1 || ... || K(n-1)), HASH = r.Hash; enterKeyExchange, on every path, hands prepareKeyChange a kexResult whose SessionID is the stored t.sessionID, or H of this exchange exactly when the path established that t.sessionID was nil/empty, and leaves t.sessionID unchanged resp. set to that H; (direction tags) clientKeys = A,C,E and serverKeys = B,D,F for (ivTag, keyTag, macKeyTag), read from the initialiser's SSA by field name; newPacketCipher, on every path reaching the constructor cipherModes[algs.Cipher].create, passes (key, iv, macKey) buffers filled by generateKeyMaterial with d.keyTag / d.ivTag / d.macKeyTag from the kex result passed in and sized cipherModes[..].keySize / .ivSize / macModes[algs.MAC].keySize, and no MAC key exactly when aeadCiphers[algs.Cipher]; newTransport returns a transport with reader.dir=serverKeys/writer.dir=clientKeys for a client and the opposite for a server; (tables) every advertised kex/cipher/MAC name has a table entry, cipherModes key/IV sizes and macModes key sizes, EtM flags, hash functions and truncation equal the RFC 4253/4344/5647/6668 and OpenSSH PROTOCOL values, kexAlgoMap binds each name to the implementation, hash and curve/group the name prescribes, ecHash maps curve sizes to SHA-256/384/512 (the declared init functions of package ssh that touch cipherModes / macModes / kexAlgoMap are interpreted by the same symbolic executor and the value finally registered under each name is inspected, so entries may be built by literals, constructor helpers, loops over a table or copies of other entries; reading constant-keyed literal assignments statically is only the fallback when that interpretation finds nothing; a MAC's hash and truncation are read from the body of its constructor closure). NOT decided: actual interoperability and all numeric content (there is an OpenSSH client in the sandbox, but running it is not static analysis); the bodies of the encoding atoms themselves (marshalInt, marshalString, intLength, Marshal, Unmarshal: C24); writeString, writeInt and handshakeMagics.write ARE interpreted (a big-endian length written byte by byte, with binary.BigEndian.PutUint32/AppendUint32 or binary.Write is recognised as the same four bytes).",
 		assumptions: []string{"transcription of the RFC tables in c27.go", "kexInitMsg field order equals the wire order (sshtype/ field order checked under C24)",
 			"the wire-encoding atoms ssh.marshalInt / marshalString / intLength / Marshal / Unmarshal / underlyingAlgo, encoding/binary big-endian writers and hash.Hash behave as documented (they are the atoms of the symbolic model)",
 			"functions outside package ssh are uninterpreted functions of their arguments; only io.ReadFull, Read, crypto/subtle, encoding/binary Put* and crypto/rand.Read are taken to write into a byte-slice argument",
@@ -50,47 +51,96 @@ func c27Tables(c *Ctx) {
 		"aes128-cbc": {16, 16}, "3des-cbc": {24, 8},
 	}
 	gotC := map[string]bool{}
-	for _, me := range c.mapUpdates("ssh", "cipherModes") {
-		fl := litFields(me.val)
-		k, ok1 := constInt(fl["keySize"])
-		iv, ok2 := constInt(fl["ivSize"])
-		w, known := wantC[me.key]
-		gotC[me.key] = true
+	type cipherEntry struct {
+		key     string
+		at      poser
+		k, iv   int64
+		sizesOK bool
+		ctor    string // "ssh.newGCMCipher", or "call:ssh.streamCipherMode" with skip/mk
+		skip    int64
+		mk      string
+	}
+	var cents []cipherEntry
+	if entries, ok, _ := c27InitMap(c, "cipherModes"); ok {
+		// the init functions are interpreted: sizes and constructor are read off the value registered
+		for _, e := range entries {
+			ce := cipherEntry{key: e.key, at: e.at, ctor: "?"}
+			if e.val.k == c27Ptr && e.val.cell != nil {
+				ks, is := c27FieldCell(e.val.cell, "keySize"), c27FieldCell(e.val.cell, "ivSize")
+				if ks != nil && is != nil && ks.val.k == c27Int && is.val.k == c27Int {
+					ce.k, ce.iv, ce.sizesOK = ks.val.n, is.val.n, true
+				}
+				if cr := c27FieldCell(e.val.cell, "create"); cr != nil && cr.val.k == c27Func && cr.val.fn != nil {
+					if par := cr.val.fn.Parent(); par != nil {
+						ce.ctor = "call:" + short(par.String())
+						for _, b := range cr.val.el {
+							if b.k == c27Ptr && b.cell != nil {
+								b = b.cell.val
+							}
+							switch b.k {
+							case c27Int:
+								ce.skip = b.n
+							case c27Func:
+								ce.mk = short(b.fn.String())
+							}
+						}
+					} else {
+						ce.ctor = short(cr.val.fn.String())
+					}
+				}
+			}
+			cents = append(cents, ce)
+		}
+	} else {
+		for _, me := range c.mapUpdates("ssh", "cipherModes") {
+			fl := litFields(me.val)
+			k, ok1 := constInt(fl["keySize"])
+			iv, ok2 := constInt(fl["ivSize"])
+			ce := cipherEntry{key: me.key, at: me.at, k: k, iv: iv, sizesOK: ok1 && ok2, ctor: funcValueName(fl["create"])}
+			if call, isCall := fl["create"].(*ssa.Call); isCall && len(call.Call.Args) == 2 {
+				ce.skip, _ = constInt(call.Call.Args[0])
+				ce.mk = funcValueName(call.Call.Args[1])
+			}
+			cents = append(cents, ce)
+		}
+	}
+	for _, ce := range cents {
+		w, known := wantC[ce.key]
+		gotC[ce.key] = true
 		if !known {
-			c.fail("C27.cipher-table", "cipherModes["+me.key+"]", me.at, "cipher not in the checker's RFC table")
+			c.fail("C27.cipher-table", "cipherModes["+ce.key+"]", ce.at, "cipher not in the checker's RFC table")
 			continue
 		}
-		c.check(ok1 && ok2 && k == w.key && iv == w.iv, "C27.cipher-table", "cipherModes["+me.key+"]", me.at, fmt.Sprintf("key %d, IV %d bytes", k, iv), fmt.Sprintf("key size %d / IV size %d; the algorithm requires %d / %d", k, iv, w.key, w.iv))
+		c.check(ce.sizesOK && ce.k == w.key && ce.iv == w.iv, "C27.cipher-table", "cipherModes["+ce.key+"]", ce.at, fmt.Sprintf("key %d, IV %d bytes", ce.k, ce.iv), fmt.Sprintf("key size %d / IV size %d; the algorithm requires %d / %d", ce.k, ce.iv, w.key, w.iv))
 		// constructor family
-		ctor := funcValueName(fl["create"])
 		wantCtor := ""
 		switch {
-		case strings.HasSuffix(me.key, "-ctr") || strings.HasPrefix(me.key, "arcfour"):
+		case strings.HasSuffix(ce.key, "-ctr") || strings.HasPrefix(ce.key, "arcfour"):
 			wantCtor = "call:ssh.streamCipherMode"
-		case strings.Contains(me.key, "-gcm@"):
+		case strings.Contains(ce.key, "-gcm@"):
 			wantCtor = "ssh.newGCMCipher"
-		case strings.HasPrefix(me.key, "chacha20"):
+		case strings.HasPrefix(ce.key, "chacha20"):
 			wantCtor = "ssh.newChaCha20Cipher"
-		case me.key == "aes128-cbc":
+		case ce.key == "aes128-cbc":
 			wantCtor = "ssh.newAESCBCCipher"
-		case me.key == "3des-cbc":
+		case ce.key == "3des-cbc":
 			wantCtor = "ssh.newTripleDESCBCCipher"
 		}
-		okCtor := ctor == wantCtor
+		okCtor := ce.ctor == wantCtor
+		got := ce.ctor
 		if wantCtor == "call:ssh.streamCipherMode" && okCtor {
-			call := fl["create"].(*ssa.Call)
-			skip, _ := constInt(call.Call.Args[0])
-			mk := funcValueName(call.Call.Args[1])
 			wantSkip, wantMk := int64(0), "ssh.newAESCTR"
-			if strings.HasPrefix(me.key, "arcfour") {
+			if strings.HasPrefix(ce.key, "arcfour") {
 				wantMk = "ssh.newRC4"
-				if me.key != "arcfour" {
+				if ce.key != "arcfour" {
 					wantSkip = 1536
 				}
 			}
-			okCtor = skip == wantSkip && mk == wantMk
+			okCtor = ce.skip == wantSkip && ce.mk == wantMk
+			got = fmt.Sprintf("%s(%d, %s)", ce.ctor, ce.skip, ce.mk)
+			wantCtor = fmt.Sprintf("%s(%d, %s)", wantCtor, wantSkip, wantMk)
 		}
-		c.check(okCtor, "C27.cipher-table", "cipherModes["+me.key+"] constructor", me.at, "instantiates "+wantCtor, fmt.Sprintf("constructor is %s, the name requires %s", ctor, wantCtor))
+		c.check(okCtor, "C27.cipher-table", "cipherModes["+ce.key+"] constructor", ce.at, "instantiates "+wantCtor, fmt.Sprintf("constructor is %s, the name requires %s", got, wantCtor))
 	}
 	// aeadCiphers = the two GCM and chacha
 	// ---- macModes
@@ -109,13 +159,48 @@ func c27Tables(c *Ctx) {
 		"hmac-sha1-96":                  {20, false, "crypto/sha1.New", 12},
 	}
 	gotM := map[string]bool{}
-	for _, me := range c.mapUpdates("ssh", "macModes") {
-		fl := litFields(me.val)
-		k, ok1 := constInt(fl["keySize"])
-		etm, ok2 := constBool(fl["etm"])
-		if fl["etm"] == nil {
-			etm, ok2 = false, true
+	type macEntry struct {
+		key string
+		at  poser
+		k   int64
+		etm bool
+		ok  bool
+		cl  *ssa.Function
+	}
+	var ments []macEntry
+	if entries, ok, _ := c27InitMap(c, "macModes"); ok {
+		for _, e := range entries {
+			me := macEntry{key: e.key, at: e.at}
+			if e.val.k == c27Ptr && e.val.cell != nil {
+				ks, et := c27FieldCell(e.val.cell, "keySize"), c27FieldCell(e.val.cell, "etm")
+				if ks != nil && et != nil && ks.val.k == c27Int && et.val.k == c27Int {
+					me.k, me.etm, me.ok = ks.val.n, et.val.n != 0, true
+				}
+				if nw := c27FieldCell(e.val.cell, "new"); nw != nil && nw.val.k == c27Func {
+					me.cl = nw.val.fn
+				}
+			}
+			ments = append(ments, me)
 		}
+	} else {
+		for _, u := range c.mapUpdates("ssh", "macModes") {
+			fl := litFields(u.val)
+			k, ok1 := constInt(fl["keySize"])
+			etm, ok2 := constBool(fl["etm"])
+			if fl["etm"] == nil {
+				etm, ok2 = false, true
+			}
+			me := macEntry{key: u.key, at: u.at, k: k, etm: etm, ok: ok1 && ok2}
+			switch x := fl["new"].(type) {
+			case *ssa.Function:
+				me.cl = x
+			case *ssa.MakeClosure:
+				me.cl, _ = x.Fn.(*ssa.Function)
+			}
+			ments = append(ments, me)
+		}
+	}
+	for _, me := range ments {
 		w, known := wantM[me.key]
 		gotM[me.key] = true
 		if !known {
@@ -123,18 +208,11 @@ func c27Tables(c *Ctx) {
 			continue
 		}
 		hashName, trunc := "", int64(0)
-		var cl *ssa.Function
-		switch x := fl["new"].(type) {
-		case *ssa.Function:
-			cl = x
-		case *ssa.MakeClosure:
-			cl, _ = x.Fn.(*ssa.Function)
-		}
-		if cl != nil {
-			for _, ci := range callsNamed(cl, "crypto/hmac.New") {
+		if me.cl != nil {
+			for _, ci := range deepCallsNamed(me.cl, "crypto/hmac.New") {
 				hashName = funcValueName(ci.Common().Args[0])
 			}
-			allInstrs(cl, func(in ssa.Instruction) {
+			deepInstrs(me.cl, func(in ssa.Instruction) {
 				if st, ok := in.(*ssa.Store); ok {
 					if _, fld, _, ok := fieldOf(st.Addr); ok && fld == "length" {
 						trunc, _ = constInt(st.Val)
@@ -142,9 +220,9 @@ func c27Tables(c *Ctx) {
 				}
 			})
 		}
-		c.check(ok1 && ok2 && k == w.key && etm == w.etm && hashName == w.hash && trunc == w.trnc, "C27.mac-table", "macModes["+me.key+"]", me.at,
-			fmt.Sprintf("key %d, etm %v, %s, truncation %d", k, etm, hashName, trunc),
-			fmt.Sprintf("key %d etm %v hash %q truncation %d; the algorithm requires key %d etm %v hash %s truncation %d", k, etm, hashName, trunc, w.key, w.etm, w.hash, w.trnc))
+		c.check(me.ok && me.k == w.key && me.etm == w.etm && hashName == w.hash && trunc == w.trnc, "C27.mac-table", "macModes["+me.key+"]", me.at,
+			fmt.Sprintf("key %d, etm %v, %s, truncation %d", me.k, me.etm, hashName, trunc),
+			fmt.Sprintf("key %d etm %v hash %q truncation %d; the algorithm requires key %d etm %v hash %s truncation %d", me.k, me.etm, hashName, trunc, w.key, w.etm, w.hash, w.trnc))
 	}
 	// ---- kexAlgoMap
 	type km struct{ typ, hash, extra string }
@@ -180,40 +258,53 @@ func c27Tables(c *Ctx) {
 		return fmt.Sprint(k)
 	}
 	gotK := map[string]bool{}
-	for _, me := range c.mapUpdates("ssh", "kexAlgoMap") {
-		w, known := wantK[me.key]
-		gotK[me.key] = true
+	checkK := func(key string, at poser, tn, hs, extra string) {
+		w, known := wantK[key]
+		gotK[key] = true
 		if !known {
-			c.fail("C27.kex-table", "kexAlgoMap["+me.key+"]", me.at, "key exchange not in the checker's table")
-			continue
+			c.fail("C27.kex-table", "kexAlgoMap["+key+"]", at, "key exchange not in the checker's table")
+			return
 		}
-		val := stripConv(me.val)
-		tn := typeName(val.Type())
-		fl := litFields(val)
-		hs := ""
-		if fl["hashFunc"] != nil {
-			hs = hashConst(fl["hashFunc"])
-		}
-		extra := ""
-		if w.typ == "ecdh" {
-			if call, ok := fl["curve"].(*ssa.Call); ok {
-				extra = short(calleeName(&call.Call))
-			} else if mi, ok := fl["curve"].(*ssa.MakeInterface); ok {
-				if call, ok := mi.X.(*ssa.Call); ok {
-					extra = short(calleeName(&call.Call))
-				}
-			}
-			if extra == "" {
-				if ci, ok := stripConv(fl["curve"]).(*ssa.Call); ok {
-					extra = short(calleeName(&ci.Call))
-				}
-			}
-		}
-		if w.typ == "dhGroup" {
-			extra = c27GroupPrime(fl["p"])
-		}
-		c.check(tn == w.typ && hs == w.hash && extra == w.extra, "C27.kex-table", "kexAlgoMap["+me.key+"]", me.at,
+		c.check(tn == w.typ && hs == w.hash && extra == w.extra, "C27.kex-table", "kexAlgoMap["+key+"]", at,
 			fmt.Sprintf("%s hash=%s %s", tn, hs, extra), fmt.Sprintf("bound to %s hash=%q param=%q; the name requires %s hash=%q param=%q", tn, hs, extra, w.typ, w.hash, w.extra))
+	}
+	// the init functions are interpreted, so an entry may be built by a literal, a
+	// constructor helper or a copy of another entry; the literal reader is the
+	// fallback for a map filled where the interpreter does not reach
+	if entries, ok, _ := c27InitMap(c, "kexAlgoMap"); ok {
+		for _, e := range entries {
+			tn, hs, extra := c27KexEntry(e.val, func(k int64) string { return hashConst(ssa.NewConst(constant.MakeInt64(k), types.Typ[types.Uint])) })
+			checkK(e.key, e.at, tn, hs, extra)
+		}
+	} else {
+		for _, me := range c.mapUpdates("ssh", "kexAlgoMap") {
+			val := stripConv(me.val)
+			tn := typeName(val.Type())
+			fl := litFields(val)
+			hs := ""
+			if fl["hashFunc"] != nil {
+				hs = hashConst(fl["hashFunc"])
+			}
+			extra := ""
+			if tn == "ecdh" {
+				if call, ok := fl["curve"].(*ssa.Call); ok {
+					extra = short(calleeName(&call.Call))
+				} else if mi, ok := fl["curve"].(*ssa.MakeInterface); ok {
+					if call, ok := mi.X.(*ssa.Call); ok {
+						extra = short(calleeName(&call.Call))
+					}
+				}
+				if extra == "" {
+					if ci, ok := stripConv(fl["curve"]).(*ssa.Call); ok {
+						extra = short(calleeName(&ci.Call))
+					}
+				}
+			}
+			if tn == "dhGroup" {
+				extra = c27GroupPrime(fl["p"])
+			}
+			checkK(me.key, me.at, tn, hs, extra)
+		}
 	}
 	// ---- advertised names have entries
 	for _, l := range []struct {
